@@ -3,7 +3,7 @@ import json, os, re
 import cybuild
 
 TITLE = "Comparisons and membership tests match CPython"
-EXTRACTS = ["Cmp", "CmpInt", "CmpFloat"]
+EXTRACTS = ["Cmp", "CmpInt", "CmpFloat", "CmpFold"]
 RULE = ("five generators. (1) cascades of 1-4 comparison links whose operands are logging calls (Python "
         "objects, C int / C double calls, instrumented objects whose rich comparisons return objects with a "
         "logging/raising __bool__) over all ten comparison operators; (2) `in`/`not in` tests against tuple/"
@@ -28,7 +28,16 @@ RULE = ("five generators. (1) cascades of 1-4 comparison links whose operands ar
         "29..1024), every int against float(int) and its two neighbouring doubles, every float against int(float) +- 1, "
         "random pairs of nearby magnitude; six operators x typings (object/object, float/int, float/object, object/int, "
         "int/float, int/object, object/float) x {expression, if-statement}; three-way: compiled helper / extracted model of "
-        "the build's variant / exact integer cross-multiplication (CPython's own operators must agree with the latter)")
+        "the build's variant / exact integer cross-multiplication (CPython's own operators must agree with the latter). "
+        "(6) constant folding of chains (ConstantFolding.visit_PrimaryCmpNode): every pattern of link kinds {constant-"
+        "true, constant-false, not constant}^n for n = 1..4 links (all 120 thorough; all of n <= 3 plus a sample of n = 4 "
+        "quick), each realised with operands that are logging calls, names, literal constants (int, float, bool, str, "
+        "bytes, None, tuples, (), list) or instrumented objects whose rich comparisons log, all ten operators, literal-"
+        "literal links that raise at compile time (None < 1) or are not portable ('a' == b'a'), in return / if / not "
+        "context, each function run on several value assignments (true, false and raising links, raising operands); "
+        "compared four ways: folded node tree dumped after the real ConstantFolding pass vs the model's node list, "
+        "compiled module vs the model's evaluation, compiled module vs CPython, model reference vs CPython (value, "
+        "exception, log of operand evaluations and comparison calls)")
 EXPLANATION = ("theorems: the temp-machine code emitted for e0 op1 e1 ... opn en equals the Python reference "
                "(value, exception and full event trace: operand evaluations, comparison calls, truth tests) for "
                "ALL cascades; FlattenInListTransform output evaluates like CPython's membership test for all "
@@ -48,7 +57,13 @@ EXPLANATION = ("theorems: the temp-machine code emitted for e0 op1 e1 ... opn en
                "(2.0**45 < 2**40 is True there: model only, not reproducible on this LP64 machine). partial: the other "
                "object comparison helpers (str, bytes, UnicodeEquals, UnicodeEqualsUCS4, dict/set/str "
                "containment) and C/Python coercions are differential only (compiled module vs CPython); user-defined __eq__ inside flattened `in` "
-               "tests (operand orientation) is outside the model.")
+               "tests (operand orientation) is outside the model. Constant folding of comparison chains: for EVERY chain, "
+               "every assignment of constant/non-constant operands, every semantics of the non-constant operands and every "
+               "compile-time oracle that agrees with the run-time comparison of the constants, the folded chain (constant-true "
+               "links dropped, cut at a constant-false link, partial cascades joined by and) has the same value, exception and "
+               "observable trace as the unfolded chain when comparison results are True/False; the variant that drops the "
+               "partial cascades left of a constant-false link is refuted; for arbitrary result objects the statement is "
+               "refuted (two findings: untested result before a constant-true tail, double truth test).")
 TRUSTED = ["CPython 3.12 executing the same (or the de-typed) source text as the property oracle",
            "leaf oracles of the model (==, is, hash, rich comparison results, truth values) are tabulated from "
            "CPython on the leaf values",
@@ -66,7 +81,8 @@ ASSUMPTIONS = ["flattened `in` tests compare built-in values: == is total, symme
 # model variant flags: flip to "1" after the corresponding proposed fix is applied to /repo
 FX = {"lhs_outer": os.environ.get("C19_FX_LHS", "1"),       # proposed_fixes/C19-flatten_lhs_evaluated_after_members
       "fix_and": os.environ.get("C19_FX_AND", "1"),         # proposed_fixes/C19-switch_and_of_eq_treated_as_or
-      "chk_truth": os.environ.get("C19_FX_TRUTH", "1")}     # proposed_fixes/C19-cascade_truth_error_ignored
+      "chk_truth": os.environ.get("C19_FX_TRUTH", "1"),     # proposed_fixes/C19-cascade_truth_error_ignored
+      "tail_fix": os.environ.get("C19_FX_TAIL", "0")}       # proposed_fixes/C19-constfold_true_tail_result_untested
 
 # ------------------------------------------------------------------------------------------------
 # tree dump worker (runs the real transforms; pipeline cut after SwitchTransform)
@@ -156,6 +172,42 @@ def dump_stat(s, refs):
         return ["expr", dump_expr(s.expr, refs)]
     return ["?" + type(s).__name__]
 
+def cf_operand(n):
+    E = ExprNodes
+    if (isinstance(n, E.SimpleCallNode) and isinstance(n.function, E.NameNode) and len(n.args or []) >= 2
+            and isinstance(n.args[1], E.IntNode)):
+        return "c%s" % n.args[1].value
+    if isinstance(n, E.NameNode):
+        return "n" + str(n.name)
+    return "@%d" % n.pos[2]
+
+def cf_node(n):
+    E = ExprNodes
+    if isinstance(n, E.BoolBinopNode):
+        return (cf_node(n.operand1) + cf_node(n.operand2)) if n.operator == 'and' else [["?or"]]
+    if isinstance(n, E.BoolNode):
+        return [["bool", bool(n.value)]]
+    if isinstance(n, E.PrimaryCmpNode):
+        links = []; c = n
+        while c is not None:
+            links.append([c.operator, cf_operand(c.operand2)]); c = c.cascade
+        return [["casc", cf_operand(n.operand1), links]]
+    return [["?" + type(n).__name__]]
+
+class CFDumper(TreeVisitor):
+    def __init__(self, out):
+        TreeVisitor.__init__(self); self.out = out
+    def visit_FuncDefNode(self, node):
+        name = str(getattr(node, 'name', '?'))
+        if name.startswith('t_cf'):
+            st = node.body
+            while isinstance(st, Nodes.StatListNode) and st.stats:
+                st = st.stats[0]
+            self.out[name] = cf_node(st.value) if isinstance(st, Nodes.ReturnStatNode) else [["?" + type(st).__name__]]
+        return None
+    def visit_Node(self, node):
+        self.visitchildren(node)
+
 class FuncDumper(TreeVisitor):
     def __init__(self, out):
         TreeVisitor.__init__(self); self.out = out
@@ -177,10 +229,15 @@ def run(source, path):
                                  os.path.splitext(os.path.basename(path))[0], os.getcwd())
     result = Main.create_default_resultobj(src, opts)
     stages = Pipeline.create_pyx_pipeline(ctx, opts, result)
-    out = {"flatten": {}, "switch": {}}
+    out = {"flatten": {}, "switch": {}, "cf": {}}
     new = []
     for st in stages:
         new.append(st)
+        if isinstance(st, Optimize.ConstantFolding) and os.path.basename(path).startswith("c19_cf"):
+            def hook0(tree, out=out):
+                CFDumper(out["cf"]).visit(tree); return tree
+            new.append(hook0)
+            break
         if isinstance(st, Optimize.FlattenInListTransform):
             def hook(tree, out=out):
                 FuncDumper(out["flatten"]).visit(tree); return tree
@@ -242,6 +299,8 @@ def mk(a, d, LOG):
             return d["P"](LOG, [mk(x, d, LOG) for x in a[1]])
         if a[0] == "W":
             return d["W"](LOG, a[1], a[2])
+        if a[0] == "B":
+            return d["B"](LOG, a[1], a[2])
         if a[0] == "log":
             return LOG
         if a[0] == "raw":
@@ -1901,6 +1960,493 @@ def check_floatint(ctx, model, quick, built):
 
 
 # ------------------------------------------------------------------------------------------------
+# part 6: ConstantFolding.visit_PrimaryCmpNode - chains with links between two constants
+# ------------------------------------------------------------------------------------------------
+CF_PRELUDE = '''
+class B:
+    def __init__(self, LOG, wid, res):
+        self.L = LOG; self.wid = wid; self.res = res
+    def _cmp(self, opn, other):
+        self.L.append(('c', opn, self.wid, getattr(other, 'wid', -1)))
+        if self.res == 'x':
+            raise IndexError(self.wid)
+        return self.res == 't'
+    def __lt__(self, o): return self._cmp(0, o)
+    def __le__(self, o): return self._cmp(1, o)
+    def __eq__(self, o): return self._cmp(2, o)
+    def __ne__(self, o): return self._cmp(3, o)
+    def __gt__(self, o): return self._cmp(4, o)
+    def __ge__(self, o): return self._cmp(5, o)
+    __hash__ = None
+'''
+# literal constants: (source text, value id); ids < 30 are POOL indices
+CF_LITS = [("1", 0), ("1.0", 1), ("True", 2), ("0", 3), ("0.0", 4), ("False", 5), ("'a'", 6), ("b'a'", 7), ("None", 8),
+           ("(1, 2)", 10), ("2", 11), ("'ab'", 12), ("257", 14), ("-1", 15), ("1.5", 16), ("'b'", 17), ("(1, 2.0)", 18),
+           ("97", 19), ("()", 30), ("3", 31), ("[1, 2]", 33)]
+CF_EXTRA = {30: (), 31: 3, 33: [1, 2]}
+CF_CONTAINER = (10, 18, 30, 33)
+CF_IDENT_OK = (8, 2, 5, 3, 0, 11, 15)           # None, True, False, 0, 1, 2, -1: identity is defined by the language / cache
+CF_CYOPS = ["<", "<=", "==", "!=", ">", ">=", "is", "is_not", "in", "not_in"]
+CF_SWAP = {0: 4, 1: 5, 2: 2, 3: 3, 4: 0, 5: 1}
+CF_DYN_GROUPS = [[0, 1, 2, 3, 4, 5, 11, 14, 15, 16, 19], [0, 3, 11, 15, 16, 1], [6, 12, 17], [10, 18, 12], [8, 0, 6, 13]]
+
+
+def cf_value(vid):
+    return CF_EXTRA[vid] if vid in CF_EXTRA else POOL[vid]
+
+
+def cf_pyop(op, a, b):
+    import operator as O
+    return [O.lt, O.le, O.eq, O.ne, O.gt, O.ge, O.is_, O.is_not, lambda x, y: x in y, lambda x, y: x not in y][op](a, b)
+
+
+def cf_ct(op, a, b):
+    """compile-time result of a link between two literal constants as documented for the folding pass: the Python
+    operator on the two values; an exception or a str/bytes mix = not a constant (None); `x in ()` is False"""
+    if isinstance(a, (str, bytes)) and isinstance(b, (str, bytes)) and type(a) is not type(b):
+        return None
+    if op in (8, 9) and isinstance(b, (tuple, list)) and len(b) == 0:
+        return op == 9
+    try:
+        return bool(cf_pyop(op, a, b))
+    except (ValueError, TypeError, KeyError, IndexError, AttributeError, ArithmeticError):
+        return None
+
+
+def cf_lit_link_ok(op, la, lb):
+    """a link between two literals that the generator may emit"""
+    a, b = cf_value(la), cf_value(lb)
+    st = cf_ct(op, a, b)
+    if op in (6, 7):
+        # identity of two equal non-singleton literals is implementation defined in CPython
+        return st is not None and ((la in CF_IDENT_OK and lb in CF_IDENT_OK) or type(a) is not type(b))
+    if st is not None:
+        return True
+    # not a constant: only families whose run-time comparison Cython types as a Python operation
+    # (a one-character str/bytes literal against a number is a C character comparison by language design)
+    if op in (0, 1, 4, 5) and (a is None or b is None) and all(x is None or type(x) in (int, float) for x in (a, b)):
+        return True
+    # ('a' == b'a' is "not portable" = not a constant, but a str literal against a bytes literal crashes the compiler
+    #  in find_special_bool_compare_function: outside this check's population)
+    return False
+
+
+class FoldCase:
+    """operands: dicts kind = call | name | lit | loud (an instrumented object passed through a call or a name);
+       lit: vid; flavour b = instrumented objects return bools, r = result objects with a logging __bool__"""
+    def __init__(self, name, operands, ops, ctx="ret", flavour="b", pattern=None, assigns=None):
+        self.name, self.operands, self.ops, self.ctx, self.flavour = name, operands, ops, ctx, flavour
+        self.pattern = pattern or self.statuses()
+        self.assigns = assigns or []
+        self.spans = []
+
+    def statuses(self):
+        out = []
+        for i, op in enumerate(self.ops):
+            a, b = self.operands[i], self.operands[i + 1]
+            if a["kind"] == "lit" and b["kind"] == "lit":
+                st = cf_ct(op, cf_value(a["vid"]), cf_value(b["vid"]))
+                out.append("D" if st is None else ("T" if st else "F"))
+            else:
+                out.append("D")
+        return "".join(out)
+
+    def expr(self):
+        e, self.spans = "", []
+        for i, o in enumerate(self.operands):
+            if i:
+                e += " %s " % OPS[self.ops[i - 1]]
+            t = ("f(LOG, %d, vals[%d])" % (i, i) if o.get("via", o["kind"]) == "call" else "n%d" % i if o["kind"] != "lit"
+                 else [x for x, v in CF_LITS if v == o["vid"]][0])
+            self.spans.append((len(e), len(e) + len(t)))
+            e += t
+        return e
+
+    def text(self, cy=True):
+        e = self.expr()
+        head = "def %s(LOG, vals, n0, n1, n2, n3, n4):\n" % self.name
+        if self.ctx == "ret":
+            self.col0 = len("    return ")
+            return head + "    return %s\n" % e
+        if self.ctx == "not":
+            return head + "    return not (%s)\n" % e
+        return head + "    if %s:\n        return True\n    return False\n" % e
+
+    def args(self, assign):
+        vals, names = [], []
+        for i in range(5):
+            o = self.operands[i] if i < len(self.operands) else {"kind": "lit"}
+            a = assign[i] if i < len(assign) else None
+            if o["kind"] == "lit" or a is None:
+                v = ["raw", 0]
+            elif o["kind"] == "loud":
+                v = ["W", i, None if a == "x" else a] if self.flavour == "r" else ["B", i, a]
+            else:
+                v = ["p", a]
+            vals.append(v if o.get("via", o["kind"]) == "call" else ["raw", 0])
+            names.append(v if o.get("via", o["kind"]) == "name" else ["raw", 0])
+        return [["log"], ["vals", vals]] + names
+
+    # ---- model command for one assignment
+    def opval(self, i, assign):
+        """(value id or None if the evaluation raises, loud?)"""
+        o = self.operands[i]
+        if o["kind"] == "lit":
+            return o["vid"], False
+        if o["kind"] == "loud":
+            return 100 + i, True
+        return (None if assign[i] < 0 else assign[i]), False
+
+    def model_cmd(self, assign, drop_left="false"):
+        n = len(self.operands)
+        toks, vals = [], []
+        for i, o in enumerate(self.operands):
+            v, ld = self.opval(i, assign)
+            vals.append((v, ld))
+            logs = 1 if o.get("via", o["kind"]) == "call" else 0
+            toks.append("%d:%s:%s:%s" % (i, "true" if logs else "false", ("x%d" % (100 + i)) if v is None else "v%d" % v,
+                                         "true" if o["kind"] == "lit" else "false"))
+        ct, cm, tt, loud = [], [], ["2,t", "5,f"], []
+        for i, op in enumerate(self.ops):
+            (a, la), (b, lb) = vals[i], vals[i + 1]
+            if a is None or b is None:
+                continue
+            if la or lb:
+                sp = assign[i] if la else assign[i + 1]
+                who = i if la else i + 1
+                if self.flavour == "r":
+                    if sp == "x":
+                        res = "x%d" % (300 + who)
+                    else:
+                        res = "v%d" % (2000 + sp[0])
+                        tt.append("%d,%s" % (2000 + sp[0], sp[1] if sp[1] in "tf" else "x%d" % (400 + sp[0])))
+                        loud.append(str(2000 + sp[0]))
+                else:
+                    res = {"t": "v2", "f": "v5", "x": "x%d" % (300 + who)}[sp]
+                cm.append("%d,%d,%d,%s" % (op, a, b, res))
+                continue
+            x, y = cf_value(a), cf_value(b)
+            try:
+                res = "v2" if cf_pyop(op, x, y) else "v5"
+            except TypeError:
+                res = "x900"
+            except ValueError:
+                res = "x901"
+            cm.append("%d,%d,%d,%s" % (op, a, b, res))
+            if self.operands[i]["kind"] == "lit" and self.operands[i + 1]["kind"] == "lit":
+                st = cf_ct(op, x, y)
+                if st is not None:
+                    ct.append("%d,%d,%d,%s" % (op, a, b, "t" if st else "f"))
+        loud += [str(100 + i) for i, o in enumerate(self.operands) if o["kind"] == "loud"]
+        j = lambda l: ";".join(dict.fromkeys(l)) or "-"
+        links = ";".join("%d,%s" % (op, t) for op, t in zip(self.ops, toks[1:]))
+        return "fold %s %s %s %s %s %s %s %s" % ("true" if FX["tail_fix"] == "1" else "false", drop_left, toks[0], links,
+                                                 j(ct), j(cm), j(tt), ",".join(dict.fromkeys(loud)) or "-")
+
+    def klass(self):
+        """class of a property failure, from the input only"""
+        if self.flavour == "r":
+            p = self.pattern
+            if FX["tail_fix"] != "1" and p.endswith("T") and "D" in p and "F" not in p:
+                return "constfold_true_tail_result_untested"
+            # a partial cascade of >= 2 links followed by another node
+            parts = re.findall(r"D+|T|F", p.split("F")[0]) + (["F"] if "F" in p else [])
+            for k, x in enumerate(parts):
+                if len(x) >= 2 and x[0] == "D" and (any(y[0] in "DF" for y in parts[k + 1:]) or
+                                                    (FX["tail_fix"] == "1" and p.endswith("T"))):
+                    return "constfold_segment_result_tested_twice"
+        return "constfold_wrong_result"
+
+
+def cf_pick_dyn(rng, kindpool=("call", "call", "name")):
+    k = rng.choice(kindpool)
+    return {"kind": k}
+
+
+def cf_realize(rng, name, pattern, ctx="ret", loud_p=0.0, flavour="b"):
+    """operands and operators realising the pattern of link kinds"""
+    nl = len(pattern)
+    for attempt in range(60):
+        lit = [False] * (nl + 1)
+        for i, s in enumerate(pattern):
+            if s != "D":
+                lit[i] = lit[i + 1] = True
+        for i in range(nl + 1):
+            adj = [pattern[j] for j in (i - 1, i) if 0 <= j < nl]
+            if not lit[i] and rng.random() < 0.2:
+                lit[i] = True
+        operands, ops, ok = [], [], True
+        for i in range(nl + 1):
+            adj = [j for j in (i - 1, i) if 0 <= j < nl]
+            allconst = all(pattern[j] != "D" for j in adj)
+            found = None
+            for _ in range(80):
+                if lit[i]:
+                    t, vid = rng.choice(CF_LITS)
+                    if vid in CF_CONTAINER and not allconst:
+                        continue
+                    o = {"kind": "lit", "vid": vid}
+                else:
+                    o = cf_pick_dyn(rng)
+                    if rng.random() < loud_p:
+                        o = {"kind": "loud", "via": rng.choice(["call", "name"])}
+                if i == 0:
+                    found = (o, None); break
+                prev = operands[i - 1]
+                want = pattern[i - 1]
+                op = rng.choice(range(10))
+                if "loud" in (prev["kind"], o["kind"]) and op > 5:
+                    continue
+                if prev["kind"] == "lit" and o["kind"] == "lit":
+                    if not cf_lit_link_ok(op, prev["vid"], o["vid"]):
+                        continue
+                    st = cf_ct(op, cf_value(prev["vid"]), cf_value(o["vid"]))
+                    if ("D" if st is None else "T" if st else "F") != want:
+                        continue
+                else:
+                    if want != "D":
+                        continue
+                    if op in (6, 7) and any(x["kind"] == "lit" and x["vid"] not in CF_IDENT_OK for x in (prev, o)):
+                        continue
+                    if op in (8, 9) and o["kind"] == "lit" and not isinstance(cf_value(o["vid"]), (str, bytes, tuple, list)):
+                        continue
+                found = (o, op); break
+            if found is None:
+                ok = False; break
+            operands.append(found[0])
+            if found[1] is not None:
+                ops.append(found[1])
+        if ok:
+            c = FoldCase(name, operands, ops, ctx, flavour, pattern)
+            assert c.statuses() == pattern, (c.statuses(), pattern)
+            return c
+    return None
+
+
+def cf_assign(rng, case, k):
+    """k value assignments for the non-literal operands (pool index, -1 = the call raises, or the result spec of an
+    instrumented object)"""
+    out = []
+    for j in range(k):
+        g = rng.choice(CF_DYN_GROUPS) if rng.random() < 0.85 else [i for i in range(len(POOL)) if i != NAN_I]
+        a = []
+        for i, o in enumerate(case.operands):
+            if o["kind"] == "lit":
+                a.append(None)
+            elif o["kind"] == "loud":
+                if case.flavour == "r":
+                    r = rng.random()
+                    a.append("x" if r < 0.1 else [i, "x" if r < 0.2 else ("f" if r < 0.5 else "t")])
+                else:
+                    a.append(rng.choice("ttffx"))
+            else:
+                vi = rng.choice(g)
+                # containers as right operand of in / not in
+                if i > 0 and case.ops[i - 1] in (8, 9) and rng.random() < 0.8:
+                    vi = rng.choice([10, 12, 18, 6, 13, 7])
+                if o.get("via", o["kind"]) == "call" and rng.random() < 0.06:
+                    vi = -1
+                a.append(vi)
+        out.append(a)
+    return out
+
+
+def cf_parse(text, flavour="b", ctx="ret", name=None):
+    """directed case from a compact description: operands separated by operators; c = call, n = name, w = instrumented
+    object (through a call), anything else = literal text"""
+    toks = text.split(" ")
+    operands, ops = [], []
+    i = 0
+    while i < len(toks):
+        t = toks[i]
+        if t == "c":
+            operands.append({"kind": "call"})
+        elif t == "n":
+            operands.append({"kind": "name"})
+        elif t == "w":
+            operands.append({"kind": "loud", "via": "call"})
+        else:
+            operands.append({"kind": "lit", "vid": dict(CF_LITS)[t] if t in dict(CF_LITS) else
+                             dict(CF_LITS)[t + " " + toks[i + 1]]})
+            if t not in dict(CF_LITS):
+                i += 1
+        i += 1
+        if i < len(toks):
+            op = toks[i]
+            if op in ("is", "not") and i + 1 < len(toks) and toks[i + 1] in ("not", "in"):
+                op += " " + toks[i + 1]; i += 1
+            ops.append(OPS.index(op)); i += 1
+    return FoldCase(name, operands, ops, ctx, flavour)
+
+
+CF_DIRECTED = [
+    # the constant-false link after live operands (f() < 1 > 2 ...), at every position
+    ("c < 1 > 2", "b", [[0], [11], [6], [8], [-1]]), ("c < 1 > 2 < c", "b", [[0, None, None, 11], [14, None, None, 0], [13, None, None, 0]]),
+    ("c <= c < 2 == 3", "b", [[0, 11], [11, 0], [0, 6], [0, 14], [0, -1]]), ("c in (1, 2) != 3 == 2", "b", [[11], [14]]),
+    ("n < 1 > 2", "b", [[3], [12]]), ("c < c < c < 1 > 2", "b", [[3, 0, 11], [3, 0, 0], [3, 6, 0]]),
+    ("c < 1 > 2", "b", [[0], [6]], "if"), ("c < 1 > 2", "b", [[0], [6]], "not"),
+    ("w < 1 > 2", "b", [["t"], ["f"], ["x"]]), ("w < w < 1 > 2", "b", [["t", "t"], ["t", "f"], ["f", "t"], ["t", "x"]]),
+    # constant-true links: head, middle, tail, runs
+    ("c < 2 > 1 < c", "b", [[0, None, None, 11], [0, None, None, 3], [14, None, None, 11]]), ("2 < 3 < c", "b", [[None, None, 14], [None, None, 0]]),
+    ("c < 2 > 1", "b", [[0], [14], [6]]), ("c < 2 > 1 < 3", "b", [[0], [14]]), ("1 < 2 < c < 3 > 2", "b", [[None, None, 16], [None, None, 14]]),
+    ("w < 2 > 1 < w", "b", [["t", None, None, "t"], ["f", None, None, "t"], ["t", None, None, "f"], ["t", None, None, "x"]]),
+    ("w < 2 > 1", "b", [["t"], ["f"], ["x"]]),
+    # constant-false head; only constants
+    ("2 < 1 < c", "b", [[None, None, 0]]), ("1 < 2", "b", [[]]), ("2 < 1", "b", [[]]), ("1 < 2 < 3", "b", [[]]), ("1 < 2 > 3", "b", [[]]),
+    ("1 < 2 > 3 < c", "b", [[None, None, None, 0]]),
+    # empty containers, None, identity, mixed strings, compile-time errors
+    ("1 in () < c", "b", [[None, None, 0]]), ("1 not in () in c", "b", [[None, None, 10], [None, None, 0]]), ("c in ()", "b", [[0], [-1]]),
+    ("c in () == ()", "b", [[0]]), ("1 in [1, 2] == [1, 2] != c", "b", [[None, None, None, 0]]),
+    ("c is None is None", "b", [[8], [0]]), ("c is not None is not 1", "b", [[8], [0]]), ("None is None is c", "b", [[None, None, 8], [None, None, 3]]),
+    ("c < None < 1", "b", [[0]]), ("c < 'a' < 'b' > 'ab'", "b", [[12], [0]]),
+    ("c == 1 == 1.0 == True != c", "b", [[0, None, None, None, 3], [3, None, None, None, 0], [1, None, None, None, 2]]),
+    # result objects (findings constfold_true_tail_result_untested / constfold_segment_result_tested_twice)
+    ("w < 2 > 1", "r", [[[0, "t"]], [[0, "f"]], [[0, "x"]]]), ("1 < 2 < w < 3 < 257", "r", [[None, None, [2, "t"]], [None, None, [2, "f"]]]),
+    ("w < w < 2 > 1 < w", "r", [[[0, "f"], [1, "t"], None, None, [4, "t"]], [[0, "t"], [1, "t"], None, None, [4, "t"]],
+                                [[0, "t"], [1, "f"], None, None, [4, "t"]]]),
+    ("w < 1 > 2", "r", [[[0, "t"]], [[0, "f"]], [[0, "x"]], ["x"]]), ("w < 2 > 1 < w", "r", [[[0, "t"], None, None, [3, "t"]], [[0, "f"], None, None, [3, "t"]]]),
+]
+
+
+def gen_fold_cases(rng, quick, prefix):
+    import itertools
+    cases = []
+    k_assign = 3 if quick else 8
+    pats = []
+    for nl in (1, 2, 3, 4):
+        allp = ["".join(p) for p in itertools.product("TFD", repeat=nl)]
+        if quick and nl == 4:
+            must = [p for p in allp if p.count("D") >= 1 and ("F" in p or "T" in p)]
+            allp = rng.sample(must, 30)
+        pats += allp * (1 if quick else (6 if nl < 4 else 3))
+    for p in pats:
+        c = cf_realize(rng, "t_cf%s%d" % (prefix, len(cases)), p)
+        if c is not None:
+            c.assigns = cf_assign(rng, c, k_assign)
+            cases.append(c)
+    # other contexts, instrumented objects
+    extra = [("if", 0.0, "b")] * (10 if quick else 60) + [("not", 0.0, "b")] * (10 if quick else 60) + \
+            [("ret", 0.5, "b")] * (20 if quick else 150) + [("ret", 0.5, "r")] * (0 if quick else 60)
+    for ctx, lp, fl in extra:
+        nl = rng.choice([2, 2, 3, 3, 4])
+        while True:
+            p = "".join(rng.choice("TFDDD") for _ in range(nl))
+            if "D" in p and p != "D" * nl:
+                break
+        c = cf_realize(rng, "t_cf%s%d" % (prefix, len(cases)), p, ctx, lp, fl)
+        if c is not None:
+            c.assigns = cf_assign(rng, c, k_assign)
+            cases.append(c)
+    for d in CF_DIRECTED:
+        c = cf_parse(d[0], d[1], d[3] if len(d) > 3 else "ret", "t_cf%s%d" % (prefix, len(cases)))
+        c.assigns = [list(a) + [None] * (len(c.operands) - len(a)) for a in d[2]]
+        for a in c.assigns:
+            for i, o in enumerate(c.operands):
+                if o["kind"] == "lit":
+                    a[i] = None
+        cases.append(c)
+    return cases
+
+
+def cf_struct_from_dump(case, dump):
+    def tok(t):
+        if t.startswith("c") or t.startswith("nn"):
+            return int(t.lstrip("cn"))
+        col = int(t[1:]) - case.col0
+        for i, (a, b) in enumerate(case.spans):
+            if a <= col < b:
+                return i
+        return -1
+    out = []
+    for n in dump:
+        if n[0] == "bool":
+            out.append("B1" if n[1] else "B0")
+        elif n[0] == "casc":
+            out.append("C%d(%s)" % (tok(n[1]), ",".join("%d.%d" % (CF_CYOPS.index(op), tok(t)) for op, t in n[2])))
+        else:
+            out.append(str(n))
+    return "&".join(out)
+
+
+def cf_model_obs(trace, out, case):
+    ev = []
+    for e in ([] if trace == "-" else trace.split(",")):
+        if e[0] == "c":
+            op, a, b = [int(x) for x in e[1:].split("/")]
+            if 100 <= a < 2000:
+                ev.append("c%d/%d/%d" % (op, a - 100, b - 100 if 100 <= b < 2000 else -1))
+            else:
+                ev.append("c%d/%d/%d" % (CF_SWAP[op], b - 100, -1))
+        else:
+            ev.append(e)
+    if case.ctx != "ret" and out[0] == "V":
+        t = out == "V2" if out in ("V2", "V5") else None
+        out = "V?" if t is None else ("V2" if t == (case.ctx == "if") else "V5")
+    return "%s | %s" % (",".join(ev) or "-", out)
+
+
+def cf_impl_obs(r):
+    res, log = r
+    ev = []
+    for e in log:
+        if isinstance(e, list):
+            ev.append("c%d/%d/%d" % (e[1], e[2], e[3]) if e[0] == "c" else "t%d" % (2000 + e[1]))
+        else:
+            ev.append("o%d" % e)
+    if res[0] == "P":
+        out = "V%d" % res[1]
+    elif res[0] == "R":
+        out = "V%d" % (2000 + res[1])
+    elif res[0] == "X":
+        a = res[2][0] if res[2] else None
+        out = {"ValueError": lambda: ("X%d" % (100 + int(a))) if isinstance(a, int) else "X901", "IndexError": lambda: "X%d" % (300 + int(a)),
+               "KeyError": lambda: "X%d" % (400 + int(a)), "TypeError": lambda: "X900"}.get(res[1], lambda: "?" + res[1])()
+    else:
+        out = "?" + json.dumps(res)
+    return "%s | %s" % (",".join(ev) or "-", out)
+
+
+def check_fold(ctx, model, cases, dumps, cy, py):
+    """cy / py: results in the order of (case, assignment)"""
+    q = []
+    for c in cases:
+        for a in c.assigns:
+            q.append(c.model_cmd(a))
+    mres = model.batch(q)
+    k = 0
+    nstruct = 0
+    for c in cases:
+        src = c.text(True)
+        for ai, a in enumerate(c.assigns):
+            m = [x.strip() for x in mres[k].split(" | ")]
+            got, exp = cf_impl_obs(cy[k]), cf_impl_obs(py[k])
+            k += 1
+            inp = {"part": "constfold", "func": c.name, "source": src, "args": c.args(a), "pattern": c.pattern,
+                   "flavour": c.flavour, "context": c.ctx}
+            ctx.case("constfold/%s/%s/%d-links/%s" % (c.ctx, c.flavour, len(c.ops),
+                                                      "".join(sorted(set(c.pattern)))), inp, sig=(src, json.dumps(c.args(a))))
+            if len(m) != 5:
+                ctx.corr_break("constfold:model", inp, mres[k - 1], "five fields")
+                continue
+            mstruct, mrun, mref = m[0], cf_model_obs(m[1], m[2], c), cf_model_obs(m[3], m[4], c)
+            if ai == 0 and c.ctx == "ret":
+                nstruct += 1
+                d = dumps.get(c.name)
+                ds = cf_struct_from_dump(c, d) if d is not None else "no dump"
+                if ds != mstruct:
+                    ctx.corr_break("constfold:folded-tree", inp, ds, mstruct)
+            if exp != mref:
+                ctx.corr_break("constfold:reference-model", inp, exp, mref)
+            if got != mrun:
+                ctx.corr_break("constfold:run", inp, got, mrun)
+            if got != exp:
+                ctx.fail(c.klass(), inp, got, exp, note="model(as is)=%s pattern=%s" % (mrun, c.pattern))
+    ctx.extra["constfold_functions"] = len(cases)
+    ctx.extra["constfold_tree_ties"] = nstruct
+    ctx.extra["constfold_patterns"] = len({c.pattern for c in cases})
+
+
+# ------------------------------------------------------------------------------------------------
 DUP_SRC = '''
 def t_dup(char b):
     if b in b"ab":
@@ -1935,14 +2481,17 @@ def run(ctx):
     in_cases = gen_in_cases(rng, 40 if quick else 500, "i")
     sw_cases = gen_sw_cases(rng, 35 if quick else 400, "s") + directed_sw_cases("sd")
     ca_cases = gen_casc_cases(rng, 60 if quick else 600, "c")
+    cf_cases = gen_fold_cases(rng, quick, "k")
     head = "# cython: language_level=3\n"
     in_src = head + PRELUDE + "\n".join(c.source() for c in in_cases)
     sw_cy = head + PRELUDE + CY_HELPERS + "\n".join(c.text(True) for c in sw_cases)
     sw_py = PRELUDE + PY_HELPERS + "\n".join(c.text(False) for c in sw_cases)
     ca_cy = head + PRELUDE + CY_HELPERS + "\n".join(c.text(True) for c in ca_cases)
     ca_py = PRELUDE + PY_HELPERS + "\n".join(c.text(False) for c in ca_cases)
+    cf_src = head + PRELUDE + CF_PRELUDE + "\n".join(c.text(True) for c in cf_cases)
     O0 = ["-O0"]
-    specs = [dict(name="c19_in", source=in_src, workdir=ctx.workdir, cflags=O0),
+    specs = [dict(name="c19_cf", source=cf_src, workdir=ctx.workdir, cflags=O0),
+             dict(name="c19_in", source=in_src, workdir=ctx.workdir, cflags=O0),
              dict(name="c19_sw", source=sw_cy, workdir=ctx.workdir, cflags=O0),
              dict(name="c19_ca", source=ca_cy, workdir=ctx.workdir, cflags=O0),
              dict(name="c19_diff", source=head + DIFF_SRC, workdir=ctx.workdir, cflags=O0),
@@ -1953,7 +2502,7 @@ def run(ctx):
     import concurrent.futures as cf
     with cf.ThreadPoolExecutor(max_workers=2) as ex:
         fut_tree = ex.submit(cybuild.run_script, TREEWORKER, ctx.workdir,
-                             {"sources": {"c19_in": in_src, "c19_sw": sw_cy}, "dir": ctx.workdir}, 900, None, None, "treeworker.py")
+                             {"sources": {"c19_cf": cf_src, "c19_in": in_src, "c19_sw": sw_cy}, "dir": ctx.workdir}, 900, None, None, "treeworker.py")
         built = cybuild.build_many(specs, jobs=6)
         tr = fut_tree.result()
     dup_err = built[-1][1]
@@ -1969,10 +2518,15 @@ def run(ctx):
     if trees is None:
         ctx.corr_break("treeworker", "pipeline hook", (tr["err"] or tr["out"])[-1500:], "tree dumps")
         return
-    for k in ("c19_in", "c19_sw"):
+    for k in ("c19_cf", "c19_in", "c19_sw"):
         if "error" in trees[k]:
             ctx.corr_break("treeworker " + k, "pipeline hook", trees[k]["error"], "no compile error")
             return
+
+    # ---- part 6: constant folding of comparison chains
+    cases = [["c19_cf", c.name, c.args(a)] for c in cf_cases for a in c.assigns]
+    cy, py = run_both(ctx, [["c19_cf", cf_src]], [["c19_cf", cf_src]], cases, "cf")
+    check_fold(ctx, ctx.model("cmpfold"), cf_cases, trees["c19_cf"]["cf"], cy, py)
 
     # ---- part 2
     cases = [["c19_in", c.name, c.args()] for c in in_cases]
@@ -2054,12 +2608,12 @@ def replay(ctx, obj):
         r = cybuild.run_script(script, ctx.workdir, [inp["dir"], inp["a"], inp["b"]], name="drv_replay_fi.py")
         print("replayed: compiled ->", r["json"], (r["err"] or "")[-300:])
         return
-    if not src or inp.get("part") not in ("in_literal", "cascade"):
+    if not src or inp.get("part") not in ("in_literal", "cascade", "constfold"):
         return
     name = "c19_replay"
-    text = "# cython: language_level=3\n" + PRELUDE + CY_HELPERS + src
+    text = "# cython: language_level=3\n" + PRELUDE + CF_PRELUDE + CY_HELPERS + src
     cybuild.build(name, text, ctx.workdir)
     cases = [[name, inp["func"], inp["args"]]]
     cy = run_driver(ctx, "cy", [[name, text]], cases, "rp")
-    py = run_driver(ctx, "py", [[name, PRELUDE + PY_HELPERS + src]], cases, "rp")
+    py = run_driver(ctx, "py", [[name, PRELUDE + CF_PRELUDE + PY_HELPERS + src]], cases, "rp")
     print("replayed: compiled ->", cy[0], " CPython ->", py[0])
